@@ -57,7 +57,7 @@ def opsSocketcan : List String → Option (String × String)
   | ["rxs", script] => do
     let reads ← (if script = "-" then some [] else (script.splitOn ",").mapM parseRead)
     let (blocks, err) := runScript reads []
-    let frames := blocks.map fun b => frameStr (unwire (blockOfBytes b))
+    let frames := blocks.map fun b => rxStr (blockOfBytes b)
     let e := match err with | none => "nil" | some c => s!"E{c}"
     some (s!"n={blocks.length} err={e} icpt=ok frames={";".intercalate frames}", "-")
   | ["txq", hist] => do
